@@ -22,6 +22,11 @@ N_CASES = {"quick": 1500, "thorough": 40000}
 
 
 def gen(rng, tier):
+    yield from _gen_batched(rng, tier)
+    yield from _gen_main(rng, tier)
+
+
+def _gen_main(rng, tier):
     big = tier == "thorough"
     for i in range(N_CASES[tier]):
         nstreams = rng.choice([1, 2, 3, 4, 8])
@@ -114,6 +119,47 @@ def gen(rng, tier):
         }
 
 
+def _gen_batched(rng, tier):
+    """Several frames for different streams arriving in ONE read: what follows a frame that concerns a finished / reset / early-answered
+    stream must still be acted upon (WINDOW_UPDATE for a stalled stream, HEADERS opening a new one)."""
+    for i in range(120 if tier == "quick" else 3000):
+        fb = FrameBuilder()
+        iw = rng.choice([1000, 5000, 16384])
+        rspec = {"kind": "h2", "initial_window": iw, "max_frame": 16384, "credit": "none"}
+        base = 7000000 + i * 10
+        size = rng.choice([4 * iw, 10 * iw, 40000])
+        by_tag = {
+            # stream 1: an upload answered at once, body never read: response complete (send buffer gone) while the stream is still open
+            str(base): [["send", {"type": "http.response.start", "status": 200, "headers": [(b"x-tag", b"%d" % base)]}],
+                        ["send", {"type": "http.response.body", "body": b"early", "more_body": False}]],
+            # stream 3: stalls on its window
+            str(base + 1): [["recv_until_end"], ["send", {"type": "http.response.start", "status": 200, "headers": [(b"x-tag", b"%d" % (base + 1))]}],
+                            ["send_stream", ("c9", base + 1), size, rng.choice([1000, 16384]), True]],
+            str(base + 2): [["recv_until_end"], ["respond", 200, [(b"x-tag", b"%d" % (base + 2))], b"late-%d" % (base + 2)]],
+        }
+        blob = client_preface(fb, rspec)
+        blob += fb.headers(1, [(b":method", b"POST"), (b":scheme", b"http"), (b":path", b"/t%d" % base), (b":authority", b"h")], end_stream=False)
+        blob += fb.data(1, b"part", end_stream=False)
+        blob += fb.headers(3, [(b":method", b"GET"), (b":scheme", b"http"), (b":path", b"/t%d" % (base + 1)), (b":authority", b"h")], end_stream=True)
+        first = rng.choice(["rst_answered", "rst_answered", "data_answered", "wu_answered", "rst_unknown_closed"])
+        batch = {"rst_answered": fb.rst(1, 8), "data_answered": fb.data(1, b"more", end_stream=True),
+                 "wu_answered": fb.window_update(1, 100), "rst_unknown_closed": fb.rst(1, 8) + fb.rst(1, 8)}[first]
+        need = size + 100
+        batch += fb.window_update(3, need) + fb.window_update(0, need)
+        new_stream = rng.random() < 0.5
+        if new_stream:
+            batch += fb.headers(5, [(b":method", b"GET"), (b":scheme", b"http"), (b":path", b"/t%d" % (base + 2)), (b":authority", b"h")], end_stream=True)
+        streams = [{"sid": 3, "tag": base + 1, "size": size, "rst_at": None, "dep": 0}]
+        if new_stream:
+            streams.append({"sid": 5, "tag": base + 2, "size": len(b"late-%d" % (base + 2)), "rst_at": None, "dep": 0, "literal": True})
+        yield {"family": "batched." + first, "backends": ["asyncio", "trio"], "config": {"keep_alive_timeout": 5000}, "conn": {},
+               "apps": {"default": [["recv_until_end"], ["respond", 200, [], b"d"]], "by_tag": by_tag},
+               "client": [["feed", blob], ["settle"], ["react", "credit_only", 3, need], ["react", "credit_only", 0, need],
+                          ["feed", batch], ["settle"]], "reactor": rspec,
+               "truth": {"streams": streams, "iw": iw, "mf": 16384, "policy": "batched", "total": size, "prio_cycle": False, "batched": first},
+               "sched": {"seed": rng.randrange(1 << 30), "net_jitter": None}, "horizon": 100.0}
+
+
 def nontrivial(case, obs):
     t = case["truth"]
     rx = obs.reactor
@@ -144,7 +190,7 @@ def check(case, obs, tally):
     open_sends = {e[4]["inst"] for e in obs.open_sends()}
     for s in t["streams"]:
         sv = rx.streams.get(s["sid"])
-        exp = pattern(("c9", s["tag"]), 0, s["size"])
+        exp = pattern(("c9", s["tag"]), 0, s["size"]) if not s.get("literal") else b"late-%d" % s["tag"]
         got = bytes(sv.data) if sv is not None else b""
         was_reset = s["rst_at"] is not None or (sv is not None and sv.rst is not None)
         tally.clause("complete-ordered")
